@@ -718,7 +718,11 @@ PPL::Grid::relation_with(const Constraint& c) const {
       {
         if (first_point == nullptr) {
           first_point = &g;
-          const int sign = Scalar_Products::sign(c, g);
+          // A strict inequality carries an epsilon coefficient: it must not
+          // meet a coordinate of the point (c may have a smaller dimension).
+          const int sign = c.is_strict_inequality()
+            ? Scalar_Products::reduced_sign(c.expr, g.expr)
+            : Scalar_Products::sign(c.expr, g.expr);
           if (sign == 0) {
             point_saturates = !c.is_strict_inequality();
           }
